@@ -185,6 +185,8 @@ type docSet struct {
 	// wideFrom: documents [wideFrom,nCore) are the wide and big documents (they belong to every
 	// document subset)
 	wideFrom int
+	// spare: every array of the working documents has spare capacity, which must stay untouched
+	spare bool
 }
 
 // indices lists the documents a ladder is evaluated on.
@@ -239,11 +241,58 @@ func (ds *docSet) n() int { return len(ds.text) }
 
 // restore rebuilds document i (mode m) if a call changed it; reports whether it had changed.
 func (ds *docSet) restore(m, i int) bool {
-	if sameJSON(ds.docs[m][i], ds.pristine[m][i]) {
+	if sameJSON(ds.docs[m][i], ds.pristine[m][i]) && (!ds.spare || !spareDirty(ds.docs[m][i])) {
 		return false
 	}
 	ds.docs[m][i] = gen.Clone(ds.pristine[m][i])
+	if ds.spare {
+		ds.docs[m][i] = withSpare(ds.docs[m][i])
+	}
 	return true
+}
+
+// withSpare rebuilds every array of a document with spare capacity (cap = 2*len+2, the spare
+// slots nil): a library that appends to a re-sliced caller array writes there.
+func withSpare(v interface{}) interface{} {
+	switch t := v.(type) {
+	case map[string]interface{}:
+		for k, x := range t {
+			t[k] = withSpare(x)
+		}
+		return t
+	case []interface{}:
+		a := make([]interface{}, len(t), 2*len(t)+2)
+		for i, x := range t {
+			a[i] = withSpare(x)
+		}
+		return a
+	}
+	return v
+}
+
+// spareDirty reports whether some array of the document has a non-nil value in its spare
+// capacity (written beyond its length).
+func spareDirty(v interface{}) bool {
+	switch t := v.(type) {
+	case map[string]interface{}:
+		for _, x := range t {
+			if spareDirty(x) {
+				return true
+			}
+		}
+	case []interface{}:
+		for _, x := range t[:cap(t)][len(t):] {
+			if x != nil {
+				return true
+			}
+		}
+		for _, x := range t {
+			if spareDirty(x) {
+				return true
+			}
+		}
+	}
+	return false
 }
 
 // ---------------------------------------------------------------------------
